@@ -18,8 +18,11 @@ arguments; let / invoke / call arguments with repeated variables.
 Guarantees
   * main is the first definition and takes only `ext i64` parameters (--main-args K, default random 0..3);
   * `/` and `%` only with a literal divisor in 1..9 (never stuck) unless --unsafe-div;
-  * every program terminates (calls go to later definitions, or to a recursive definition whose
-    first parameter is a counter that is decremented and tested against 0);
+  * every program terminates: outside closures, calls go to later definitions or to a recursive
+    definition whose first parameter is a counter that is decremented and tested against 0;
+    inside a clause of a closure of type T_m there is no `call` and `invoke` is used only on
+    closures of a type T_j with j > m.  --allow-divergence lifts the restriction on closure
+    bodies (closures calling definitions, self application: programs may loop);
   * --max-live L: in the LINEARIZED program no context (environment) is longer than L; this is
     checked by an exact simulation of the context sizes (rejection sampling), L >= 8;
   * --no-print: no print statements.
@@ -38,7 +41,8 @@ NAMES = "abcdefghjkmnpqrstuvwxyz"
 
 class Options:
     def __init__(self, no_print=False, max_live=24, max_fields=6, max_params=8, size=40,
-                 unsafe_div=False, main_args=None, max_defs=5, max_types=5):
+                 unsafe_div=False, main_args=None, max_defs=5, max_types=5,
+                 allow_divergence=False):
         self.no_print = no_print
         self.max_live = max(8, max_live)
         self.max_fields = max(0, min(max_fields, self.max_live - 4))
@@ -48,6 +52,7 @@ class Options:
         self.main_args = main_args
         self.max_defs = max_defs
         self.max_types = max_types
+        self.allow_divergence = allow_divergence
 
 
 # ---------------------------------------------------------------- rendering
@@ -307,7 +312,13 @@ class Gen:
         self.add_vis(vis, x, pinned)
         return x
 
+    def rank(self, tyname):
+        return [i for i, t in enumerate(self.types) if t['name'] == tyname][0]
+
     def gen_methods(self, vis, t, budget, ctx):
+        # inside a clause of a closure of type T_m: no `call`, `invoke` only on closures of a type
+        # of higher rank (unless --allow-divergence): every control transfer increases the rank
+        ctx = dict(ctx, clo_rank=self.rank(t['name']))
         clauses = []
         for (xn, fields) in t['xtors']:
             ps = [self.fresh(chi, ty, fn) for (fn, chi, ty) in fields]
@@ -342,6 +353,8 @@ class Gen:
     def gen_call(self, vis, ctx):
         rng = self.rng
         targets = list(range(ctx['def'] + 1, len(self.defs)))
+        if ctx.get('clo_rank') is not None and not self.o.allow_divergence:
+            return None
         if not targets:
             return None
         j = rng.choice(targets)
@@ -359,6 +372,8 @@ class Gen:
     def gen_invoke(self, vis, ctx):
         rng = self.rng
         cands = [v for v in vis if v['chi'] == 'cns']
+        if ctx.get('clo_rank') is not None and not self.o.allow_divergence:
+            cands = [v for v in cands if self.rank(v['ty']) > ctx['clo_rank']]
         if not cands:
             return None
         v = rng.choice(cands)
@@ -562,6 +577,8 @@ def main(argv):
         a = argv[i]
         if a == '--no-print':
             kw['no_print'] = True
+        elif a == '--allow-divergence':
+            kw['allow_divergence'] = True
         elif a == '--unsafe-div':
             kw['unsafe_div'] = True
         elif a in ('--max-live', '--max-fields', '--max-params', '--size', '--main-args', '--max-defs', '--max-types'):
